@@ -248,7 +248,14 @@ func execTable(ops []Op) []string {
 			emit([]string{"trbegin", a[1]}, "")
 			var key lua.LValue = lua.LNil
 			var seen []lua.LValue
-			for steps := 0; steps < 100000; steps++ {
+			entries := 0
+			tb.ForEach(func(_, _ lua.LValue) { entries++ })
+			for steps := 0; ; steps++ {
+				if steps > 4*entries+200 {
+					// (a traversal that keeps going is reported once, not as a hundred thousand request lines)
+					out = append(out, fmt.Sprintf("X traversal-does-not-terminate => %d steps over a table of %d entries, last key %s", steps, entries, w.enc(key)))
+					return out
+				}
 				var k, v lua.LValue
 				switch a[3] {
 				case "go":
